@@ -181,7 +181,7 @@ class Gen:
         if r.random() < 0.5 and len(self.boolvars) >= 2:
             # parallel let shadowing declared names: the second binding must see the OUTER first name; the body uses both
             a, b = r.sample(self.boolvars, 2)
-            return "(let ((%s %s) (%s %s)) (%s %s %s %s))" % (a, sub(), b, a, r.choice(["and", "or", "xor", "="]), b, r.choice([a, "(not %s)" % a]), sub()) \
+            return "(let ((%s %s) (%s %s)) (%s %s %s %s))" % (a, sub(), b, a, r.choice(["and", "or", "="]), b, r.choice([a, "(not %s)" % a]), sub()) \
                 if r.random() < 0.7 else "(let ((%s %s) (%s %s)) %s)" % (a, sub(), b, a, sub())
         if r.random() < 0.5 and len(self.numvars) >= 2 and not self.dl:
             a, b = r.sample(self.numvars, 2)
